@@ -210,6 +210,10 @@ def dangling_before_target(step, before_src):
         tree = ast.parse(before_src if not before_src.endswith('\\\n') else before_src + '\n')
         path = step['path']
         try:
+            if step.get('op') in ('append', 'extend', 'view_append'):   # the edit position is the END of the parent's list
+                raise LookupError
+            if step.get('op') in ('prepend', 'prextend'):
+                path = path[:-1] + [[path[-1][0], 0]]
             node = edits_resolve(tree, path)
             line = min([node.lineno] + [d.lineno for d in getattr(node, 'decorator_list', [])])
         except Exception:
